@@ -121,8 +121,9 @@ func ReadHexInt(r network.Reader) (int, error) {
 	for {
 		buf, err := r.Peek(1)
 		if err != nil {
-			r.Skip(1)
-
+			// nothing was peeked, so nothing is skipped: on a connection whose Skip waits
+			// for data (netpoll) a Skip here swallows the next byte that arrives, the first
+			// digit of this very number when the error was a read timeout
 			if i > 0 {
 				return n, nil
 			}
